@@ -594,6 +594,14 @@ class Body:
             return False
         return bb not in self.reachable_from([0], removed_edges=[edge])
 
+    def edges_guard(self, edges, bb):
+        """True iff every entry->bb path uses one of the CFG edges `edges` (edges that all establish the same fact,
+        e.g. the copies of one test that path splitting made)."""
+        edges = [e for e in edges if e]
+        if bb not in self.live_blocks or not edges:
+            return False
+        return bb not in self.reachable_from([0], removed_edges=edges)
+
     def must_pass(self, start_blocks, target_blocks, through_blocks, removed_edges=()):
         """True iff every path from any start block to any target block contains a
         block of `through_blocks` (start block itself excluded, target included)."""
